@@ -4,8 +4,8 @@
 # Works on a scratch copy of /repo's HEAD under /var/tmp, never on /repo itself.
 set -u
 PROP=$1; V=$2; shift 2
-SRC=/tmp/mut/out/$PROP/$V
-W=/var/tmp/seed-$PROP-$V
+SRC=${MUTROOT:-/tmp/mut}/out/$PROP/$V
+W=/var/tmp/seed${MUTTAG:-}-$PROP-$V
 rm -rf $W; mkdir -p $W/home
 git -C /repo archive HEAD | tar -x -C $W
 cd $W
